@@ -389,6 +389,33 @@ func runC02(c *Case, out func(string)) {
 func genC02(w *bufio.Writer, seed int64, n int, tier string) {
 	r := rand.New(rand.NewSource(seed*7877 + 2))
 	for ci := 0; ci < n; ci++ {
+		if ci%6 == 5 {
+			// directed: fill the 64 KB log buffer to just around its boundary with unsynced
+			// single writes, then a multi-key batch that straddles it, and die inside or right
+			// after the batch append: a batch must reach the log file whole or not at all
+			mode := []string{"none", "batch"}[r.Intn(2)]
+			fmt.Fprintf(w, "case c02-%d-%d memsize=10000000 sync=%s\n", seed, ci, mode)
+			target := 65536 - 3000 + r.Intn(3500)
+			used := 0
+			i := 0
+			for used < target {
+				vl := 700 + r.Intn(600)
+				fmt.Fprintf(w, "put %s @%d:%d\n", mkTok([]byte(fmt.Sprintf("s%03d", i))), vl, r.Intn(1<<20))
+				used += 7 + 13 + 4 + 4 + vl
+				i++
+			}
+			k := 4 + r.Intn(8)
+			kind := []string{"batch", "commit"}[r.Intn(2)]
+			fmt.Fprintf(w, "%s %d\n", kind, k)
+			for j := 0; j < k; j++ {
+				fmt.Fprintf(w, "p %s @%d:%d\n", mkTok([]byte(fmt.Sprintf("b%02d", j))), 300+r.Intn(500), r.Intn(1<<20))
+			}
+			fmt.Fprintf(w, "put %s %s\n", mkTok([]byte("after")), mkTok([]byte("x")))
+			fmt.Fprintf(w, "crash wal.batch.record %d\ncrash wal.batch.record %d\ncrash wal.batch.buffered 1\ncrash mgr.batch.logged 1\ncrash mgr.batch.insert %d\ncrash mgr.put.logged %d\ncrash none 0\n",
+				1+r.Intn(k), k, 1+r.Intn(k), i+1)
+			fmt.Fprintf(w, "end\n")
+			continue
+		}
 		memsize := []int{150, 300, 1000, 100000}[r.Intn(4)]
 		mode := []string{"immediate", "immediate", "batch", "none"}[r.Intn(4)]
 		fmt.Fprintf(w, "case c02-%d-%d memsize=%d sync=%s\n", seed, ci, memsize, mode)
